@@ -121,6 +121,8 @@ type Round struct {
 
 // History is the observation history of a case.
 type History struct {
+	lastParsed     map[string]*m3u8x.Playlist
+	lastBody       map[string]string
 	writeStuck     bool
 	LeftAfterClose []string // files still in Directory after Close (set by Cleanup)
 	leftChecked    bool
@@ -548,7 +550,17 @@ func (h *History) Observe(wi int, werr error, o Options) *Round {
 		if !so.Resp.OK() {
 			continue
 		}
-		so.PL = m3u8x.Parse(so.Resp.Body)
+		if prev := h.lastParsed[id]; h.Light && prev != nil && h.lastBody[id] == string(so.Resp.Body) {
+			so.PL = prev // unchanged since the last round: share the parsed form
+		} else {
+			so.PL = m3u8x.Parse(so.Resp.Body)
+			if h.Light {
+				if h.lastParsed == nil {
+					h.lastParsed, h.lastBody = map[string]*m3u8x.Playlist{}, map[string]string{}
+				}
+				h.lastParsed[id], h.lastBody[id] = so.PL, string(so.Resp.Body)
+			}
+		}
 		if o.Delta && h.Case.Cfg.Variant == media.VarLL && so.PL.Media != nil {
 			dn := name + "?_HLS_skip=YES"
 			if h.Case.Query != "" {
@@ -575,6 +587,17 @@ func (h *History) Observe(wi int, werr error, o Options) *Round {
 		}
 	}
 	r.PathCount = h.M.VerifPathCount()
+	if h.Light {
+		// long histories: the parsed form is all the oracles of these monitors look at
+		if r.MV != nil && r.MV.Resp != nil {
+			r.MV.Resp.Body = nil
+		}
+		for _, so := range r.Streams {
+			if so != nil && so.Resp != nil {
+				so.Resp.Body = nil
+			}
+		}
+	}
 	h.Rounds = append(h.Rounds, r)
 	return r
 }
